@@ -85,6 +85,7 @@ class Symx:
         self.uid = 0
         self.npaths = 0
         self._frame = 0
+        self._cparams = {}          # frame -> {const generic name: symbolic value}
 
     # ------------------------------------------------------------------ public
     def run(self, fn, args=None):
@@ -135,6 +136,15 @@ class Symx:
         return root, path
 
     def _read(self, st, root, path, fn=None, frame=None):
+        base = self._read_base(st, root, path, fn, frame)
+        # field-wise updates made after the whole value was produced (`let mut s = f(); s.x += 1; s`)
+        ups = [(k[1][len(path):], v) for k, v in st.ov.items()
+               if k[0] == root and len(k[1]) > len(path) and k[1][:len(path)] == path]
+        if ups and base[0] != 'ref':
+            return ('with', base, tuple(sorted(ups, key=str)))
+        return base
+
+    def _read_base(self, st, root, path, fn=None, frame=None):
         for k in range(len(path), -1, -1):
             key = (root, path[:k])
             if key in st.ov:
@@ -152,6 +162,17 @@ class Symx:
 
     def _select(self, sv, path):
         for i, p in enumerate(path):
+            if sv[0] == 'with':
+                rest = tuple(path[i:])
+                for sub, v in sv[2]:
+                    if rest[:len(sub)] == sub:
+                        return self._select(v, rest[len(sub):])
+                # no override for this field: read it from the base value
+                inner = [(sub[len(rest):], v) for sub, v in sv[2] if sub[:len(rest)] == rest]
+                basev = self._select(sv[1], rest)
+                if inner:
+                    return ('with', basev, tuple(inner))
+                return basev
             if sv[0] == 'agg':
                 head, variant, names, fields = sv[1], sv[2], sv[3], sv[4]
                 if p.startswith('@'):
@@ -214,6 +235,9 @@ class Symx:
         s = k.get('s')
         if s == '()':
             return ('agg', 'tuple', None, (), ())
+        cp = self._cparams.get(frame, {})
+        if s in cp:
+            return cp[s]
         return ('sym', 'const:' + str(s))
 
     def _from_constval(self, v):
@@ -512,6 +536,47 @@ class Symx:
                 r = self.models[nm](self, args, t)
                 if r is not None:
                     return done(r)
+        # Default::default() of primitive integers / bool
+        if 'core::default::Default::default' in names and not args:
+            ty = (t.cargs() or ['?'])[0]
+            if ty in MASK or ty in ('bool', 'i8', 'i16', 'i32', 'i64', 'i128', 'isize'):
+                return done(K(0))
+        # the `?` operator: Try::branch splits on the variant, from_residual rebuilds the failure
+        CF = 'core::ops::control_flow::ControlFlow'
+        if TRY_BRANCH in names and args:
+            a0 = args[0]
+            ty = (t.cargs() or ['?'])[0]
+            is_opt = ty.startswith('core::option::Option')
+            good_name = 'Some' if is_opt else 'Ok'
+            if a0[0] == 'agg' and a0[2] in ('Some', 'Ok'):
+                return done(('agg', CF, 'Continue', ('0',), (a0[4][0] if a0[4] else ('sym', 'unit'),)))
+            if a0[0] == 'agg' and a0[2] in ('None', 'Err'):
+                return done(('agg', CF, 'Break', ('0',), (a0,)))
+            adt = 'core::option::Option' if is_opt else 'core::result::Result'
+            good = 1 if is_opt else 0
+            dsv = ('discr', a0, adt)
+            kn = st.known.get(dsv)
+            outs = []
+            if not (kn and ((kn[0] == 'eq' and kn[1] != good) or (kn[0] == 'ne' and good in kn[1]))):
+                s1 = st.clone() if not kn else st
+                if not kn:
+                    s1.lits.append((dsv, ('eq', good), fn.nq, b.i))
+                    s1.known[dsv] = ('eq', good)
+                self._write(s1, dest_root, dest_path, ('agg', CF, 'Continue', ('0',), (self._select(a0, ('@' + good_name, '.0')),)))
+                outs.append(s1)
+            if not (kn and kn[0] == 'eq' and kn[1] == good):
+                s2 = st.clone() if not kn else st
+                if not kn:
+                    s2.lits.append((dsv, ('ne', (good,)), fn.nq, b.i))
+                    s2.known[dsv] = ('ne', (good,))
+                self._write(s2, dest_root, dest_path, ('agg', CF, 'Break', ('0',), (a0,)))
+                outs.append(s2)
+            return outs
+        if 'core::ops::try_trait::FromResidual::from_residual' in names and args:
+            ty = (t.cargs() or ['?'])[0]
+            if ty.startswith('core::option::Option'):
+                return done(('agg', 'core::option::Option', 'None', (), ()))
+            return done(('agg', 'core::result::Result', 'Err', ('0',), (self._select(args[0], ('@Err', '.0')),)))
         # transparent / unwrap
         for nm in names:
             if nm in TRANSPARENT_CALLS and args:
@@ -545,6 +610,22 @@ class Symx:
         if do_inline:
             # bind trait-level SPEC parameter through: nothing to do, spec is global
             f2 = self._new_frame()
+            # const generic parameters of the callee, from the call's generic arguments
+            cp = {}
+            for gname, garg in zip(callee.generics, t.cargs()):
+                if isinstance(garg, str) and garg.startswith('const '):
+                    raw = garg[6:].strip()
+                    if raw in ('true', 'false'):
+                        cp[gname] = K(raw == 'true')
+                    else:
+                        digits = raw.split('_')[0]
+                        if digits.lstrip('-').isdigit():
+                            cp[gname] = K(int(digits))
+                        else:
+                            up = self._cparams.get(frame, {}).get(raw)
+                            if up is not None:
+                                cp[gname] = up
+            self._cparams[f2] = cp
             st.env = dict(st.env)
             for i in range(1, callee.argc + 1):
                 if i - 1 < len(call_args):
@@ -623,6 +704,8 @@ def render(sv, depth=0):
         return '%s(%s)' % (sv[1].split('::')[-1], ', '.join(render(a, depth + 1) for a in sv[2]))
     if k == 'fn':
         return 'fn:' + sv[1].split('::')[-1]
+    if k == 'with':
+        return '%s with {%s}' % (render(sv[1], depth + 1), ', '.join('%s: %s' % (''.join(p), render(v, depth + 1)) for p, v in sv[2]))
     return str(sv)
 
 
